@@ -76,15 +76,18 @@ CORPUS = {
     "timeout0_then_gate": _case(_cfg(timeout=0), [["submit", {"kind": "gate", "token": 0, "g": 0}], ["wait_all"], ["submit", _e(1)], ["result", 1],
                                                   ["shutdown", True, False]],
                                 [["sleep", 5000.0], ["open_gate", 0]]),
+    # more failing-to-pickle tasks than the call queue has slots: every failed item must give its slot back
+    "unp_args_fill_queue": _case(_cfg(), [["submit", {"kind": "unp_arg", "token": i}] for i in range(5)] + [["submit", _e(5)], ["wait_all"],
+                                                                                                        ["shutdown", True, False]]),
 }
 
 FOR = {
-    "C01": ["echo_shutdown", "unp_arg_del", "unp_arg_shutdown", "pending_del", "timeout0_seq", "nowait_shutdown", "exit_with_pending",
+    "C01": ["unp_args_fill_queue", "echo_shutdown", "unp_arg_del", "unp_arg_shutdown", "pending_del", "timeout0_seq", "nowait_shutdown", "exit_with_pending",
             "two_submitters", "respawn_dies_at_start", "partial_pool_respawn", "resize_grow_new_worker_dies",
             "resize_grow_old_worker_killed"],
     "C02": ["die_then_probe", "respawn_dies_at_start", "idle_kill_then_probe", "partial_pool_respawn"],
     "C03": ["cancel_race", "timeout0_seq"],
-    "C04": ["unp_arg_shutdown", "unp_res"],
+    "C04": ["unp_arg_shutdown", "unp_res", "unp_args_fill_queue"],
     "C05": ["echo_shutdown", "unp_arg_del", "pending_del", "nowait_shutdown", "exit_with_pending", "resize_grow_old_worker_killed"],
     "C06": ["kill_shutdown"],
     "C07": ["timeout0_seq", "timeout_small_seq", "partial_pool_respawn", "timeout0_then_gate"],
